@@ -73,8 +73,9 @@ def gen_ops(tier, rng):
         ops.append((f"enc leo8 - 4 2 {size} 5", {"cat": "enc-badsize", "d": 4}))
     # Encode on ONE encoder with shard sizes going down and up (pooled work buffers of another size must not show)
     for fam in ["leo8", "leo16"]:
-        for (d, p) in [(10, 4), (4, 4), (3, 9)]:
-            for sizes in [[4096, 256, 64], [64, 4096, 128], [32768 + 64, 64, 32768]]:
+        # shapes: d >= 2m, d = m, d < m, and m < d < 2m (one full group followed only by a partial group)
+        for (d, p) in [(10, 4), (4, 4), (3, 9), (5, 3), (14, 7), (41, 17)]:
+            for sizes in [[4096, 256, 64], [64, 4096, 128], [32768 + 64, 64, 32768], [64, 256, 64]]:
                 subs = [f"e {sz} {rng.randrange(1, 1<<20)}" for sz in sizes]
                 ops.append((f"hist {fam} - {d} {p} ; " + " ; ".join(subs), {"cat": "enc-history", "d": d}))
     # Verify on Leopard sets with a flipped byte (C06 for Leopard)
